@@ -231,10 +231,10 @@ def attach_tokenizer(prop="C11", with_budget=True):
 
 # ------------------------------------------------------------------ parser
 
-def ref_outcome(text):
+def ref_outcome(text, funcs=None):
     """('ok', ast, prods) | ('reject', reason) | ('badnumber', txt) | ('badchar', ch)"""
     try:
-        ast, prods = G.ref_parse(text)
+        ast, prods = G.ref_parse(text, funcs=funcs) if funcs else G.ref_parse(text)
         return ("ok", ast, prods)
     except G.Reject as e:
         return ("reject", str(e))
@@ -316,7 +316,7 @@ def attach_parser(prop, checks, with_budget=True):
             state["in_parse"] = False
         steps = b.stop() if b is not None else 0
         try:
-            decide(prop, checks, self, input_text, res, exc, over, hist, steps)
+            decide(prop, getattr(self, "_vmon_checks", checks), self, input_text, res, exc, over, hist, steps)
         finally:
             if hist is not None:
                 hist.append(("parse", input_text, impl_outcome(res, exc)))
@@ -336,6 +336,8 @@ def decide(prop, checks, parser, text, res, exc, over, hist, steps):
     w = {"text": text, "impl": out if exc is None else f"{out}: {type(exc).__name__}: {str(exc)[:120]}"}
     if hist is not None:
         w["history"] = list(hist)[-3000:]
+    if hasattr(parser, "_vmon_checks"):
+        w["two_parsers"] = True   # observed in the two-parsers-alive phase (replayed by re-running that phase)
 
     def bad(key, what, got):
         w2 = dict(w)
@@ -364,7 +366,7 @@ def decide(prop, checks, parser, text, res, exc, over, hist, steps):
         rec.notes["budget_high_water"] = max(rec.notes.get("budget_high_water", 0), steps)
     # ---------------- C03: grammar
     if "grammar" in checks and not over:
-        ref = ref_outcome(text)
+        ref = ref_outcome(text, getattr(getattr(parser, "tokenizer", None), "_vmon_funcs", None))
         if ref[0] == "too-deep":
             rec.skip("reference parser recursion limit")
         elif ref[0] == "ok":
